@@ -152,6 +152,146 @@ PROPERTIES.update({
     },
 })
 
+
+
+def it(mode, classes, name, extra=None, tiers=("quick", "thorough")):
+    return {"name": name, "build": B("it"), "args": [mode, "--tier", "{tier}"] + (extra or []), "classes": classes, "tiers": tiers}
+
+
+PROPERTIES.update({
+    "C06": {
+        "engine": "it (stateright)",
+        "technique": "explicit-state model checking (stateright) with the real iterator object as the state, plus exhaustive un-deduplicated history enumeration",
+        "rule": "a state is (haystack case, Debug rendering of the real iterator, reference counters); states are deduplicated by stateright's fingerprint of that key",
+        "explanation": "For each of Memchr/Memchr2/Memchr3 and the SWAR/SSE2/AVX2 One/Two/Three iter(): every reachable state of the real iterator under every interleaving of next()/next_back(), from every haystack over the role alphabet up to the length bound at several alignments plus long sparse/dense haystacks. On every transition the yielded value is compared with the reference deque; in every state size_hint must bracket the remaining count, count() of a clone must equal it, and an exhausted iterator must return None from both ends three more times. The state key is cross-checked by enumerating all 2^d action strings without de-duplication.",
+        "assumptions": ["reference model: the sorted positions of matching bytes, consumed as a deque", "the Debug rendering of the iterator exposes all of its state (cross-checked by the un-deduplicated history enumeration)"] + ASSUME_COMMON[2:],
+        "jobs": [it("bytes", RESULT, "it/bytes")],
+    },
+    "C07": {
+        "engine": "bs + it (stateright)",
+        "technique": "bounded-exhaustive shape enumeration of count/count_raw + explicit-state exploration of partially consumed iterators",
+        "rule": "shape spaces as C01; model states as C06",
+        "explanation": "S: count / count_raw / iter().count() of generic One at VN<2..32> and of the real SWAR/SSE2/AVX2/top-level code over all role strings up to the length bound at every start offset (every lane pattern in head, unrolled body, vector loop and scalar tail) and sparse/dense families at real widths. H: in EVERY reachable state of C06's models, count() on a clone must equal the number of matches not yet yielded.",
+        "assumptions": ASSUME_COMMON,
+        "jobs": [
+            bs("full", "count", RESULT),
+            bs("values", "count", RESULT),
+            bs("sparse", "count", RESULT),
+            bs("raw-edges", "count", RESULT),
+            it("bytes", RESULT, "it/bytes(count in every state)", ["--kinds", "top1,swar1,sse2-1,avx2-1"]),
+        ],
+    },
+    "C08": {
+        "engine": "it",
+        "technique": "exhaustive exploration of every prefix of every iteration on the real iterator (chain walk), cross-checked by stateright on a sub-table",
+        "rule": "a state is (case, Debug rendering of the real FindIter/FindRevIter incl. pos and prefilter counters, reference index)",
+        "explanation": "find_iter / rfind_iter (top-level and Finder::find_iter, auto and no prefilter): every prefix of the iteration for all needles x all haystacks over {a,b} (self-overlapping needles in repetitive haystacks are all members), padded cores that reach the vector searchers, long structured needles x their factor haystacks, and the PF family whose early part drives the adaptive prefilter inert before later matches (the number of inert states is read off the real object). Each yielded offset is compared with the greedy non-overlapping reference; size_hint must bracket the remaining count in every state; None must be sticky; the empty needle must yield 0..=len exactly once.",
+        "assumptions": ASSUME_SUB[:1] + ["PF haystacks are built from the pair Pair::new(needle) reports, which is the pair the AVX2 prefilter uses"],
+        "jobs": [it("subs", RESULT, "it/subs")],
+    },
+    "C16": {
+        "engine": "it (stateright + history enumeration)",
+        "technique": "exhaustive enumeration of search histories on one finder object + explicit-state model with clone/into_owned as actions",
+        "rule": "a history is a sequence of 3 searches over the needle's haystack set on one finder object in one of its forms; a model state is (case, Debug rendering of the iterator, reference index)",
+        "explanation": "For each needle (all binary needles up to 4 (5), prefilter-history needles, long structured needles): every 3-step search history over a 9-12 element haystack set (incl. one that exhausts the prefilter, an empty one, one shorter than the needle) on ONE Finder / FinderRev object in each of the forms original, clone, as_ref, into_owned (built from a heap needle that is then overwritten and freed) and as_ref-of-owned; every result must equal the naive reference, and needle() the construction needle. Iterators: at every point of every iteration the iterator is cloned and converted with into_owned (needle buffer destroyed afterwards) and all three must continue identically; plus a stateright model with Next/Clone/IntoOwned as actions.",
+        "assumptions": ASSUME_SUB[:1],
+        "jobs": [it("finder", RESULT, "it/finder")],
+    },
+})
+
+
+
+def vg(job, shard_env=None):
+    """Runs an engine job under valgrind memcheck, single-threaded, in the background."""
+    j = dict(job)
+    j["valgrind"] = True
+    j["bg"] = True
+    j["env"] = {"VERIF_THREADS": "1"}
+    j["name"] = "valgrind:" + job["name"]
+    j["classes"] = MEMORY + ["valgrind"]
+    return j
+
+
+def bs_heap(ops, i, n, tier_lmax):
+    return vg({"name": "bs/heap/%s/%d" % (ops, i), "build": B("bs"), "args": ["heap", "--tier", "{tier}", "--ops", ops, "--shard", "%d/%d" % (i, n)],
+               "tier_args": {"quick": ["--lmax", str(tier_lmax[0])], "thorough": ["--lmax", str(tier_lmax[1])]}, "classes": MEMORY})
+
+
+ALLSUB = FWD + "," + REV + "," + BLOCKS
+GUARD = "guard-end,guard-start"
+
+PROPERTIES.update({
+    "C05": {
+        "engine": "bs + ss with memory monitors",
+        "technique": "bounded-exhaustive enumeration of executions of the real code under memory monitors (checked vector loads, PROT_NONE guard pages, valgrind memcheck on exact-size heap blocks)",
+        "rule": "a shape is (operation, needle, haystack, placement); placements: plain arena at every start offset, flush against the trailing PROT_NONE page, directly after the leading PROT_NONE page, exact-size heap block under valgrind",
+        "explanation": "Monitors decide, not return values. M-load: every load of the generic algorithms instantiated at VN<2..32> (memchr family and packed pair, find/rfind/count/find_prefilter) is checked to lie inside the haystack and, for load_aligned, to be aligned - over the full role-string spaces, the sparse families and the all-pairs packed-pair spaces. M-guard: the real SWAR/SSE2/AVX2/top-level byte searches, every substring entry point and building block (E2/E3 spaces, LN), is_equal/is_prefix/is_suffix, and safe calls whose needle differs from the construction needle run with the haystack (and needle) flush against PROT_NONE pages on either side; a stray read kills the engine process, which the driver reports. M-vg: the real SSE2/AVX2/SWAR byte searches and the substring entry points run under valgrind memcheck on heap blocks of exactly the haystack's size (byte-exact, also for aligned loads).",
+        "assumptions": [
+            "VN<N> loads are checked exactly; the real ISA code is observed through guard pages (blind to over-reads that stay inside the page) and valgrind memcheck (exact on the heap placements)",
+            "reads before an unaligned start by the real ISA code are visible only as wrong answers (neighbour bytes are copies of the needle) or on the page-aligned guard-start placement",
+            "compiler-level UB that causes no out-of-slice access is outside this property",
+        ],
+        "jobs": [
+            bs("full", "find,rfind,count", MEMORY, name="bs/full/vn", extra=["--subjects", "vn2,vn4,vn8", "--l1", "15", "--l2", "9", "--l3", "7"], tiers=("quick",)),
+            bs("full", "find,rfind,count", MEMORY, name="bs/full/vn", extra=["--subjects", "vn2,vn4,vn8"], tiers=("thorough",)),
+            bs("sparse", "find,rfind,count", MEMORY, name="bs/sparse/vn", extra=["--subjects", "vn4,vn8,vn16,vn32"]),
+            bs("guard", "find,rfind,count", MEMORY),
+            ss("pp-pairs", None, MEMORY, "ss/pp-pairs"),
+            ss("pp-real", "pp-vn8,pf-vn8,pp-vn16,pf-vn16,pp-sse2,pf-sse2,pp-avx2,pf-avx2", MEMORY, "ss/pp-real"),
+            ss("e", ALLSUB, MEMORY, "ss/E2/guard", ["--letters", "ab", "--places", GUARD], q=["--nmax", "5", "--hmax", "12"], t=["--nmax", "7", "--hmax", "15"]),
+            ss("e", ALLSUB, MEMORY, "ss/E3/guard", ["--letters", "abc", "--places", GUARD], q=["--nmax", "3", "--hmax", "8"], t=["--nmax", "4", "--hmax", "10"]),
+            ss("epad", FWD + "," + REV + ",pp-sse2,pp-avx2,pf-sse2,pf-avx2", MEMORY, "ss/E2pad/plain", q=["--nmax", "3", "--hmax", "7"], t=["--nmax", "4", "--hmax", "10"]),
+            ss("ln", ALLSUB, MEMORY, "ss/LN/guard", ["--places", GUARD]),
+            ss("equal", None, MEMORY, "ss/equal"),
+            ss("wrong-needle", None, MEMORY, "ss/wrong-needle"),
+        ] + [bs_heap("find,rfind,count", i, 12, (200, 448)) for i in range(12)] + [
+            vg(ss("e", FWD + "," + REV + ",twoway,rk,rtwoway,rrk,pp-sse2,pp-avx2", MEMORY, "ss/E2/heap", ["--letters", "ab", "--places", "heap", "--aligns", "0"], q=["--nmax", "3", "--hmax", "9"], t=["--nmax", "4", "--hmax", "11"])),
+            vg(ss("epad", FWD + ",pp-sse2,pp-avx2,pf-sse2,pf-avx2", MEMORY, "ss/E2pad/heap", ["--places", "heap"], q=["--nmax", "2", "--hmax", "3"], t=["--nmax", "3", "--hmax", "5"])),
+            vg(ss("ln", FWD + "," + REV + ",twoway,rtwoway", MEMORY, "ss/LN/heap", ["--places", "heap", "--lengths", "33,40", "--maxu", "2", "--pieces", "1", "--pad", "8"])),
+        ],
+    },
+    "C14": {
+        "engine": "ss + bs + it in the checked profile",
+        "technique": "bounded-exhaustive enumeration of executions of the real code built with debug assertions and overflow checks, panics caught at the API boundary",
+        "rule": "a case is an execution of a public entry point; for the documented panic: (finder, pair, haystack length) on both sides of min_haystack_len",
+        "explanation": "Every engine runs the crate with debug assertions and integer-overflow checks compiled in and catches panics per call. C14 counts only the panic class: (1) the documented panic of the packed-pair finders (SSE2, AVX2, VN<2..16>; find and find_prefilter; needles 2..=20 (40) x a set of index pairs x every haystack length 0..=min+V+2, filler and needle-dense contents) must occur exactly when len < min_haystack_len, with the documented message - in the checked profile and again in a plain release build; (2) no other panic anywhere in the byte-search spaces, the substring spaces for every entry point and building block, pair selection, is_equal, the iterator models and the finder histories.",
+        "assumptions": ["a panic inside the engine's own code is reported as a machinery error, not a verdict", "abort-on-overflow cannot occur: overflow checks panic in this profile"],
+        "jobs": [
+            ss("pp-panic", None, ["panic"], "ss/pp-panic"),
+            ss("pp-panic", None, ["panic"], "ss/pp-panic(release build)", profile="fast"),
+            bs("full", "find,rfind,count", ["panic"], name="bs/full", extra=["--l1", "14", "--l2", "9", "--l3", "7"], tiers=("quick",)),
+            bs("full", "find,rfind,count", ["panic"], name="bs/full", tiers=("thorough",)),
+            bs("sparse", "find,rfind,count", ["panic"], name="bs/sparse", tiers=("thorough",)),
+            bs("values", "find,rfind,count", ["panic"], name="bs/values"),
+            ss("e", ALLSUB + "," + PF, ["panic"], "ss/E2", ["--letters", "ab"], q=["--nmax", "6", "--hmax", "13"], t=["--nmax", "7", "--hmax", "16"]),
+            ss("e", ALLSUB + "," + PF, ["panic"], "ss/E3", ["--letters", "abc"], q=["--nmax", "4", "--hmax", "9"], t=["--nmax", "5", "--hmax", "10"]),
+            ss("epad", ALLSUB + "," + PF, ["panic"], "ss/E2pad", q=["--nmax", "3", "--hmax", "8"], t=["--nmax", "4", "--hmax", "11"]),
+            ss("ln", ALLSUB + "," + PF, ["panic"], "ss/LN"),
+            ss("pp-pairs", None, ["panic"], "ss/pp-pairs"),
+            ss("pp-real", None, ["panic"], "ss/pp-real"),
+            ss("pairs", None, ["panic"], "ss/pairs"),
+            ss("equal", None, ["panic"], "ss/equal"),
+            it("bytes", ["panic", "wrong_result"], "it/bytes", tiers=("thorough",)),
+            it("subs", ["panic"], "it/subs"),
+            it("finder", ["panic"], "it/finder"),
+        ],
+    },
+    "C17": {
+        "engine": "ss with the allocation probe",
+        "technique": "bounded-exhaustive enumeration of executions of the real code under a counting global allocator",
+        "rule": "a case is (entry point, needle, haystack); the probe is the number of allocator calls made by the calling thread between entering and leaving the call",
+        "explanation": "A counting #[global_allocator] is installed in the engine; around the construction of every searcher from a borrowed needle and around every search call the per-thread allocation count must not change: memmem::find/rfind, Finder/FinderRev (auto and no prefilter), find_iter/rfind_iter (first step and complete traversals), Two-Way, Rabin-Karp, the packed-pair finders and prefilters, over E2/E3/E2pad/LN (every strategy of the meta searcher, histogram in the evidence), and the memchr family with all of its iterators. Positive controls: into_owned must be seen allocating (otherwise the run is a machinery error); Shift-Or and the owning conversions are exempt.",
+        "assumptions": ["allocation = a call to the global allocator (alloc, alloc_zeroed, realloc) on the calling thread"],
+        "jobs": [
+            ss("e", FWD + "," + REV + ",twoway,rk,rtwoway,rrk,pp-sse2,pp-avx2,pf-sse2,pf-avx2,pf-portable,shiftor", ["alloc"], "ss/E2", ["--letters", "ab"], q=["--nmax", "6", "--hmax", "13"], t=["--nmax", "7", "--hmax", "16"]),
+            ss("e", FWD + "," + REV, ["alloc"], "ss/E3", ["--letters", "abc"], q=["--nmax", "4", "--hmax", "9"], t=["--nmax", "5", "--hmax", "10"]),
+            ss("epad", FWD + "," + REV + ",pp-sse2,pp-avx2,pf-sse2,pf-avx2", ["alloc"], "ss/E2pad", q=["--nmax", "3", "--hmax", "8"], t=["--nmax", "4", "--hmax", "11"]),
+            ss("ln", FWD + "," + REV + ",twoway,rtwoway,pf-avx2,pf-portable", ["alloc"], "ss/LN"),
+            ss("memchr-alloc", None, ["alloc"], "ss/memchr-alloc"),
+        ],
+    },
+})
+
 HOOK_COMMITS = ["ffdf165", "556bbde"]
 
 ENGINES = [
@@ -160,6 +300,9 @@ ENGINES = [
     {"name": "ss", "path": "/verif/harness/checks/src/bin/ss/", "serves_properties": ["C03", "C04", "C05", "C10", "C11", "C12", "C14", "C17", "C18", "C19"],
      "kind_free_text": "shape-space exploration of substring search and its building blocks: enumerated needle x haystack spaces, naive reference model, allocation probe, guard-page placement"},
 ]
+
+ENGINES.append({"name": "it", "path": "/verif/harness/checks/src/bin/it/", "serves_properties": ["C06", "C07", "C08", "C16"],
+                "kind_free_text": "explicit-state exploration (stateright 0.31) whose state is the real iterator/finder object; chain walker; history enumeration"})
 
 NOT_CLAIMED = {}
 
